@@ -20,7 +20,7 @@ Inductive skind :=
 | ARGUMENTS | ARGUMENT | FRAGMENT_SPREAD | INLINE_FRAGMENT | FRAGMENT_DEFINITION | FRAGMENT_NAME
 | TYPE_CONDITION | VARIABLE | VARIABLE_DEFINITIONS | VARIABLE_DEFINITION | DEFAULT_VALUE
 | STRING_VALUE | INT_VALUE | FLOAT_VALUE | BOOLEAN_VALUE | NULL_VALUE | ENUM_VALUE | LIST_VALUE
-| OBJECT_VALUE | OBJECT_FIELD | NAMED_TYPE | LIST_TYPE | NON_NULL_TYPE | DIRECTIVES | DIRECTIVE
+| OBJECT_VALUE | OBJECT_FIELD | TYPE | NAMED_TYPE | LIST_TYPE | NON_NULL_TYPE | DIRECTIVES | DIRECTIVE
 | DESCRIPTION | SCHEMA_DEFINITION | SCHEMA_EXTENSION | ROOT_OPERATION_TYPE_DEFINITION
 | SCALAR_TYPE_DEFINITION | SCALAR_TYPE_EXTENSION | OBJECT_TYPE_DEFINITION | OBJECT_TYPE_EXTENSION
 | IMPLEMENTS_INTERFACES | FIELDS_DEFINITION | FIELD_DEFINITION | ARGUMENTS_DEFINITION
